@@ -799,6 +799,145 @@ def judge_o_subrefl(inp, obs, lr):
     return None
 
 
+# ---- histories on isometries and hyperplanes: query, derive / overwrite, query again --------------------------------
+HI_OPS = ["query", "query", "left", "right", "setitem", "set", "flatten", "inv", "getitem"]
+
+
+def _hi_unit(rng, dim):
+    kind = rng.choice(["lox", "lox", "lox", "rot", "par"])
+    return {"kind": kind, "g": G.float_iso(rng, dim).tolist(), "a": rng.uniform(0.4, 2.7), "t": rng.uniform(0.4, 2.0) * rng.choice([-1, 1])}
+
+
+def _hi_mat(dim, u):
+    return _conj(np.array(u["g"]), float_std(dim, u["kind"], u["a"], u["t"]))
+
+
+def gen_o_hist_iso(rng, n):
+    for _ in range(n):
+        dim = rng.choice([2, 2, 3])
+        cnt = rng.choice([0, 0, 2, 3])
+        steps = [{"op": "query"}]
+        for _ in range(rng.randint(3, 6)):
+            op = rng.choice(HI_OPS)
+            st = {"op": op}
+            if op in ("left", "right", "setitem", "set"):
+                st["u"] = _hi_unit(rng, dim)
+                st["i"] = rng.randrange(max(cnt, 1))
+            elif op == "getitem":
+                st["i"] = rng.randrange(max(cnt, 1))
+            steps.append(st)
+        steps.append({"op": "query"})
+        yield {"dim": dim, "cnt": cnt, "units": [_hi_unit(rng, dim) for _ in range(max(cnt, 1))], "steps": steps,
+               "what": rng.choice(["isometry", "isometry", "hyperplane"])}
+
+
+def _fix_report(iso):
+    """what the library reports for every unit of a (possibly composite) isometry, judged against the CURRENT matrices"""
+    mats = np.array(iso.proj_data, dtype=float)
+    n = mats.shape[-1]
+    flat = mats.reshape((-1, n, n))
+    fp = np.real(np.array(iso.fixed_point().proj_data)).reshape((-1, n))
+    pair = np.real(np.array(iso.fixed_point_pair().proj_data)).reshape((-1, 2, n))
+    ax = np.real(np.array(iso.axis().proj_data)).reshape((-1, 2, n))
+    out = []
+    for j, M in enumerate(flat):
+        ev = np.linalg.eigvals(M)
+        amax = float(np.max(np.abs(ev)))
+        lox = bool(amax > 1.05)
+        unclear = bool(1 + 1e-4 < amax <= 1.05)
+
+        def res(v):
+            v = v / np.linalg.norm(v)
+            w = v @ M
+            mu = float(w @ v)
+            return float(np.abs(w - mu * v).max()), float(G.mink(v, v)), mu
+        r0 = res(fp[j])
+        rec = {"j": j, "lox": lox, "unclear": unclear, "fp_res": r0[0], "fp_norm": r0[1], "scale": float(np.abs(M).max())}
+        if lox:
+            ra, rb = res(pair[j, 0]), res(pair[j, 1])
+            rec.update({"pair_res": max(ra[0], rb[0]), "pair_norm": max(abs(ra[1]), abs(rb[1])), "mu": [abs(ra[2]), abs(rb[2])], "fp_mu": abs(r0[2]),
+                        "axis_same": bool(G.proj_equal(ax[j, 0], pair[j, 0], 1e-9) and G.proj_equal(ax[j, 1], pair[j, 1], 1e-9))})
+        out.append(rec)
+    return out
+
+
+def run_o_hist_iso(inp):
+    dim, cnt = inp["dim"], inp["cnt"]
+    mats = np.array([_hi_mat(dim, u) for u in inp["units"]])
+    log = []
+    if inp["what"] == "hyperplane":
+        # a wall, its reflection and the recovered wall along a history of moves
+        d = np.array([0.2, 1.0, 0.3] + [0.1] * (dim - 2))
+        Hp = H.Hyperplane(d.copy())
+        for k, st in enumerate(inp["steps"]):
+            if st["op"] in ("left", "right", "set", "setitem"):
+                g = H.Isometry(_hi_mat(dim, st["u"]))
+                Hp = g @ Hp if st["op"] != "set" else Hp
+                if st["op"] == "set":
+                    Hp.set(np.array((g @ Hp).proj_data, dtype=float).copy())
+            elif st["op"] == "query":
+                R = np.array(Hp.reflection_across().proj_data, dtype=float)
+                data = np.array(Hp.proj_data, dtype=float)
+                sc = float(max(1.0, np.abs(R).max()))
+                try:
+                    H2 = H.Hyperplane.from_reflection(H.Isometry(R.copy()))
+                    rt = bool(G.proj_equal(np.array(H2.spacelike_vector, dtype=float), data[0], 1e-7 * sc))
+                except GeometryError:
+                    # the acceptance threshold 1e-8 is absolute: a wall far from the origin has a reflection with large entries
+                    rt = sc > 20
+                log.append({"k": k, "op": "query", "wall_fixed": float(np.abs(data[1:] @ R - data[1:]).max() / (sc * max(1.0, np.abs(data).max()))),
+                            "normal_neg": float(np.abs(data[0] @ R + data[0]).max() / sc), "roundtrip": rt, "scale": sc})
+        return {"log": log}
+    iso = H.Isometry(mats.copy() if cnt else mats[0].copy())
+    for k, st in enumerate(inp["steps"]):
+        op = st["op"]
+        if op == "query":
+            log.append({"k": k, "op": op, "units": _fix_report(iso)})
+        elif op == "left":
+            iso = H.Isometry(_hi_mat(dim, st["u"])) @ iso
+        elif op == "right":
+            iso = iso @ H.Isometry(_hi_mat(dim, st["u"]))
+        elif op == "inv":
+            iso = iso.inv()
+        elif op == "flatten":
+            iso = iso.flatten_to_unit()
+        elif op == "getitem":
+            if len(iso.shape) >= 1:
+                iso = iso[st["i"] % iso.shape[0]:][:2]
+        elif op == "setitem":
+            if len(iso.shape) >= 1:
+                iso[st["i"] % iso.shape[0]] = H.Isometry(_hi_mat(dim, st["u"]))
+        elif op == "set":
+            if len(iso.shape) == 0:
+                iso.set(_hi_mat(dim, st["u"]))
+    return {"log": log}
+
+
+def judge_o_hist_iso(inp, obs, lr):
+    ops = [st["op"] for st in inp["steps"]]
+    tags = {"dim": inp["dim"], "composite": bool(inp["cnt"]), "what": inp["what"]}
+    if "exc" in obs:
+        return {"expected": "history runs", "observed": obs, "tags": dict(tags, exc=obs["exc"], ops=ops[:7])}
+    for e in obs["log"]:
+        before = [o for o in ops[:e["k"]] if o != "query"][-2:]
+        t = dict(tags, after=before, queried_before=ops[:e["k"]].count("query") > 0)
+        if inp["what"] == "hyperplane":
+            if not (e["wall_fixed"] <= 1e-6 and e["normal_neg"] <= 1e-6 and e["roundtrip"]):
+                return {"expected": "reflection across the CURRENT wall; from_reflection gives it back", "observed": e, "tags": t}
+            continue
+        for u in e["units"]:
+            # products of random elements are almost surely loxodromic or elliptic; the degenerate-eigenspace cases need dim >= 3 rotations
+            if u["unclear"] or u["scale"] > 1e4:
+                continue        # translation length below 0.05 or huge entries: classification / conditioning not reliable
+            if not (u["fp_res"] <= 1e-5 and u["fp_norm"] <= 1e-5):
+                return {"expected": "reported fixed point fixed by the CURRENT isometry, in the closed ball", "observed": u, "tags": dict(t, check="fixed_point")}
+            if u["lox"] and not (u["pair_res"] <= 1e-5 and u["pair_norm"] <= 1e-5 and u["mu"][0] > 1 + 1e-7 and u["mu"][1] < 1 - 1e-7
+                                 and u["fp_mu"] > 1 + 1e-7 and u["axis_same"]):
+                return {"expected": "loxodromic: the CURRENT isometry's two ideal endpoints, attracting first; axis() spanned by them", "observed": u,
+                        "tags": dict(t, check="pair")}
+    return None
+
+
 TRIANGLES = [(2, 3, 7), (2, 4, 5), (3, 3, 4), (2, 3, 8), (4, 4, 4), (2, 5, 5), (3, 4, 5), (2, 3, 12)]
 
 
@@ -879,6 +1018,10 @@ CLAUSES = [
            budget={"quick": 120, "thorough": 4000},
            what="Subspace(ideal basis of n points) / Geodesic (dim 2), single and composite: reflection_across involutive, form preserving, det -1, fixes the ideal basis; "
                 "spacelike_complement spacelike, orthogonal, negated; lower-dimensional subspaces refused"),
+    Clause("history_oracle", "oracle", gen_o_hist_iso, run_o_hist_iso, judge_o_hist_iso, site="hyperbolic.Isometry._fixpoint_data",
+           budget={"quick": 150, "thorough": 5000},
+           what="histories on single and composite isometries: fixed_point / fixed_point_pair / axis, then L @ A, A @ L, inv, isos[i] = other, set, flatten_to_unit, "
+                "slicing, then the queries again, judged against the current matrices; the same for a hyperplane moved by isometries (reflection_across, from_reflection)"),
     Clause("coxeter_oracle", "oracle", gen_o_coxeter, run_o_coxeter, judge_o_coxeter, site="hyperbolic.Hyperplane.from_reflection",
            budget={"quick": 40, "thorough": 400}, what="reflections w a w^-1 of hyperbolic triangle-group representations: accepted, round trip, wall fixed"),
 ]
